@@ -52,6 +52,25 @@ where
         },
         "padded" => Ok(vec![E::from(<B<E>>::from_bytes_with_padding(inp))]),
         "many" => SliceReader::new(inp).read_many::<E>(n).map_err(|_| ()),
+        // elements produced by constructors / arithmetic (observed through the encoders by the caller)
+        "new" => Ok(vec![E::from(<B<E>>::new_from_le(inp))]),
+        "zneg" | "zsub" | "zmul" => {
+            let x = E::try_from(inp).map_err(|_| ())?;
+            Ok(vec![match dec {
+                "zneg" => x + (-x),
+                "zsub" => x - x,
+                _ => {
+                    let y = x + E::ONE;
+                    (x * y) + (-(y * x))
+                },
+            }])
+        },
+        "addc" => {
+            let half = inp.len() / 2;
+            let a = E::try_from(&inp[..half]).map_err(|_| ())?;
+            let b = E::try_from(&inp[half..]).map_err(|_| ())?;
+            Ok(vec![a + b])
+        },
         _ => panic!("unknown decoder {dec}"),
     }
 }
@@ -126,10 +145,15 @@ where
 }
 
 pub trait BaseConv: StarkField {
+    /// `BaseElement::new` on the integer given by its little-endian bytes
+    fn new_from_le(b: &[u8]) -> Self;
     fn try_arr8(a: [u8; 8]) -> Option<Option<Self>>;
     fn to_u128_conv(&self) -> Option<u128>;
 }
 impl BaseConv for f64::BaseElement {
+    fn new_from_le(b: &[u8]) -> Self {
+        Self::new(le_u128(b) as u64)
+    }
     fn try_arr8(a: [u8; 8]) -> Option<Option<Self>> {
         Some(Self::try_from(a).ok())
     }
@@ -142,6 +166,9 @@ impl BaseConv for f64::BaseElement {
     }
 }
 impl BaseConv for f62::BaseElement {
+    fn new_from_le(b: &[u8]) -> Self {
+        Self::new(le_u128(b) as u64)
+    }
     fn try_arr8(a: [u8; 8]) -> Option<Option<Self>> {
         Some(Self::try_from(a).ok())
     }
@@ -154,6 +181,9 @@ impl BaseConv for f62::BaseElement {
     }
 }
 impl BaseConv for f128::BaseElement {
+    fn new_from_le(b: &[u8]) -> Self {
+        Self::new(le_u128(b))
+    }
     fn try_arr8(_a: [u8; 8]) -> Option<Option<Self>> {
         None
     }
